@@ -4,6 +4,10 @@ write wins, frame, zero-filled growth), removal of entries by zero, agreement of
 classes.
 -/
 import PyttbModel.Lemmas.MutArraySparseHist
+set_option linter.unusedSimpArgs false
+set_option linter.unusedVariables false
+set_option linter.unusedSectionVars false
+
 namespace Pyttb
 
 variable {α : Type}
